@@ -246,6 +246,61 @@ Proof.
     right. exists (s0 :: b0), ex. rewrite A1, <- app_assoc. reflexivity.
 Qed.
 
+(* a non-elided switch with at least one case has a case entry or a default *)
+Definition tbl (st : swst) : Prop := sw_cases st <> [] \/ sw_def st <> None.
+Lemma tbl_group st id Grp b : (tbl st \/ Grp <> []) ->
+  tbl {| sw_new := sw_new st ++ [mk id 0 b None]; sw_cases := sw_cases st ++ flat_map (case_entry id) Grp;
+         sw_def := if existsb sc_def Grp then Some id else sw_def st; sw_counter := id |}.
+Proof.
+  intros [[T|T]|NE]; unfold tbl; cbn [sw_cases sw_def].
+  - left. intros E. apply app_eq_nil in E. destruct E as [E _]. exact (T E).
+  - right. destruct (existsb sc_def Grp); [discriminate|exact T].
+  - destruct Grp as [|c r]; [congruence|]. cbn [existsb flat_map]. unfold case_entry at 1. destruct (sc_def c); cbn [orb].
+    + right. discriminate.
+    + left. intros E. apply app_eq_nil in E. destruct E as [_ E]. discriminate E.
+Qed.
+Lemma sw_suf_tbl ret : forall f S st st' el, sw_suf f S ret st = (st', el) -> tbl st -> tbl st'.
+Proof.
+  induction f as [|f IH]; intros S st st' el H T; [cbn in H; inversion H; subst; exact T|].
+  destruct S as [|c r]; [cbn in H; inversion H; subst; exact T|]. cbn [sw_suf] in H.
+  destruct (sc_body c) as [|s0 b0] eqn:Bc.
+  - destruct (find_bodied r 0) as [[k cj]|].
+    + eapply IH; [exact H|]. destruct T as [T|T]; unfold tbl; cbn [sw_cases sw_def].
+      * left. intros E. apply app_eq_nil in E. destruct E as [E _]. exact (T E).
+      * right. destruct (sc_def cj || existsb sc_def (c :: firstn k r)); [discriminate|exact T].
+    + destruct (sw_def st) as [dd|] eqn:DS.
+      * assert (H' : ({| sw_new := sw_new st ++ [mk (sw_counter st + 1) ret [] None];
+                         sw_cases := sw_cases st ++ flat_map (case_entry (sw_counter st + 1)) (c :: r);
+                         sw_def := Some dd; sw_counter := (sw_counter st + 1)%Z |}, false) = (st', el)) by (destruct (sw_cases st); exact H).
+        inversion H'; subst. right. cbn. discriminate.
+      * assert (H' : st' = st) by (destruct (sw_cases st); inversion H; reflexivity). subst st'. exact T.
+  - eapply IH; [exact H|]. destruct T as [T|T]; unfold tbl; cbn [sw_cases sw_def].
+    + left. intros E. apply app_eq_nil in E. destruct E as [E _]. exact (T E).
+    + right. destruct (sc_def c); [discriminate|exact T].
+Qed.
+Lemma sw_suf_nonempty ret f S st st' :
+  sw_suf f S ret st = (st', false) -> (List.length S < f)%nat -> S <> [] -> tbl st'.
+Proof.
+  intros H L NE. destruct f as [|f]; [lia|]. destruct S as [|c r]; [congruence|]. cbn [sw_suf] in H.
+  destruct (sc_body c) as [|s0 b0] eqn:Bc.
+  - destruct (find_bodied r 0) as [[k cj]|] eqn:FB.
+    + eapply sw_suf_tbl; [exact H|]. unfold tbl; cbn [sw_cases sw_def].
+      unfold case_entry at 1. cbn [flat_map]. unfold case_entry at 1. destruct (sc_def c) eqn:DC.
+      * right. rewrite orb_comm. cbn [existsb]. rewrite DC. cbn [orb]. discriminate.
+      * left. intros E. apply app_eq_nil in E. destruct E as [_ E]. discriminate E.
+    + destruct (sw_def st) as [dd|] eqn:DS.
+      * assert (H' : ({| sw_new := sw_new st ++ [mk (sw_counter st + 1) ret [] None];
+                         sw_cases := sw_cases st ++ flat_map (case_entry (sw_counter st + 1)) (c :: r);
+                         sw_def := Some dd; sw_counter := (sw_counter st + 1)%Z |}, false) = (st', false)) by (destruct (sw_cases st); exact H).
+        inversion H'; subst. right. cbn. discriminate.
+      * destruct (sw_cases st) as [|x xs] eqn:CS; [discriminate|]. inversion H; subst. left. rewrite CS. discriminate.
+  - eapply sw_suf_tbl; [exact H|]. unfold tbl; cbn [sw_cases sw_def]. unfold case_entry. destruct (sc_def c).
+    + right. discriminate.
+    + left. intros E. apply app_eq_nil in E. destruct E as [_ E]. discriminate E.
+Qed.
+
+Definition nonempty_switch (c : chunk) : Prop := match cbr c with Some (BrSwitch _ _ [] None _) => False | _ => True end.
+
 (* a switch chunk with a non-empty case table and no default *)
 Definition is_table (c : chunk) : Prop := match cbr c with Some (BrSwitch _ _ (_ :: _) None _) => True | _ => False end.
 
@@ -258,7 +313,7 @@ Lemma create_switch_shape tg op ol cases cur pre rest' cn news br ret c' :
   exists post sid swc bodies, news = post ++ swc :: bodies /\ Forall plainchunk post /\ Forall plainchunk bodies /\ cid swc = sid /\ (cn < sid)%Z /\
     br = BrJump sid /\ cstmts swc = [] /\
     Forall (fun c => tail_of c = ret) bodies /\ Forall (fun c => tail_of c = cret cur) post /\ (ret = cret cur \/ (cn < ret < sid)%Z) /\
-    (is_table swc -> tail_of swc = ret /\ In (sid + 1)%Z (ids bodies)).
+    (is_table swc -> tail_of swc = ret /\ In (sid + 1)%Z (ids bodies)) /\ (cases <> [] -> nonempty_switch swc).
 Proof.
   intros E H Hc. unfold create_switch in H.
   destruct (split_for_branch cur (List.length pre) cn) as [[post ret0] c0] eqn:ES.
@@ -281,7 +336,7 @@ Proof.
     + apply in_map_iff in Hd. destruct Hd as (x & <- & Hx). apply NEWID, J1. exact Hx.
     + destruct (sw_def st) as [dd|] eqn:DS; [destruct Hd as [<-|[]]; apply NEWID, J2; reflexivity|destruct Hd].
   - eexists post, (c0 + 1)%Z, _, (sw_new st). split; [reflexivity|]. split; [exact PP|]. split; [exact A5|]. split; [reflexivity|]. split; [lia|].
-    split; [reflexivity|]. split; [reflexivity|]. split; [|split; [|split]].
+    split; [reflexivity|]. split; [reflexivity|]. split; [|split; [|split; [|split]]].
     + rewrite Forall_forall. intros c Hc'. rewrite Forall_forall in A5. destruct (A5 c Hc') as [_ PB]. unfold tail_of. rewrite PB.
       apply (J3 c Hc'). unfold targets. rewrite PB. left. reflexivity.
     + destruct (sfb_spec _ _ _ _ _ _ _ _ E ES) as [(_ & -> & _ & _)|(_ & -> & _ & _)]; repeat constructor.
@@ -291,6 +346,10 @@ Proof.
       destruct (sw_suf_first _ _ _ _ _ _ SW LL) as [Q|(b & rest & Q)]; cbn in Q.
       * exfalso. assert (I0 : In (snd x0) (ids (sw_new st))) by (apply J1; left; reflexivity). rewrite Q in I0. destruct I0.
       * rewrite Q. left. reflexivity.
+    + intros NEC. unfold nonempty_switch. cbn [cbr mk]. destruct el; [exact Logic.I|].
+      destruct (sw_suf_nonempty _ _ _ _ _ SW LL NEC) as [T|T].
+      * destruct (sw_cases st); [congruence|exact Logic.I].
+      * destruct (sw_cases st); [|exact Logic.I]. destruct (sw_def st); [exact Logic.I|congruence].
 Qed.
 
 (* ---------- one step: count and strict targets ---------- *)
@@ -516,7 +575,7 @@ Proof.
       destruct (split_for_branch cur (List.length pre) (counter w)) as [[post ret] c0] eqn:ES. inversion H; subst.
       destruct (sfb_shape _ _ _ _ _ _ _ _ E ES) as (_ & PP & _). split; [intros []|]. intros S HS TS. exfalso. eapply PLN; eassumption.
     + destruct (create_switch op ol cases cur (List.length pre) (counter w)) as [[[news0 br] ret] c0] eqn:CR0. inversion H; subst.
-      destruct (create_switch_shape _ _ _ _ _ _ _ _ _ _ _ _ E CR0 CN) as (_ & _ & post & sid & swc & bodies & -> & PP & PBD & SID & LT & -> & ES & TB & TP & RR & TT).
+      destruct (create_switch_shape _ _ _ _ _ _ _ _ _ _ _ _ E CR0 CN) as (_ & _ & post & sid & swc & bodies & -> & PP & PBD & SID & LT & -> & ES & TB & TP & RR & TT & TNE).
       split; [intros []|]. intros S HS TS. apply in_app_or in HS. destruct HS as [HS|[<-|HS]]; [exfalso; exact (PLN _ PP S HS TS)| |exfalso; exact (PLN _ PBD S HS TS)].
       destruct (TT TS) as [T1 T2]. rewrite SID. split; [exact LT|]. split; [rewrite ids_app; apply in_or_app; right; right; exact T2|]. split.
       * intros c [<-|Hc].
@@ -526,6 +585,70 @@ Proof.
            ++ rewrite T1. destruct RR as [->|RR]; lia.
            ++ rewrite Forall_forall in TB. rewrite (TB c Hc). destruct RR as [->|RR]; lia.
       * split; [destruct RR as [->|RR]; lia|lia].
+Qed.
+
+Lemma noswitch_nonempty c : noswitch c -> nonempty_switch c.
+Proof. unfold noswitch, nonempty_switch. destruct (cbr c) as [[| | |]|]; tauto. Qed.
+Lemma plain_nonempty cs : Forall plainchunk cs -> Forall nonempty_switch cs.
+Proof. intros F. eapply Forall_impl; [|exact F]. intros c [_ B]. unfold nonempty_switch. rewrite B. exact Logic.I. Qed.
+
+(* no step creates a switch chunk with an empty table and no default (the parser rejects a switch without cases) *)
+Lemma wstep_nonempty w cur rest fin news c' nt :
+  Inv w -> remaining w = cur :: rest -> wstep w = SNext fin news c' nt ->
+  Forall nonempty_switch news /\ (nonempty_switch cur -> nonempty_switch fin).
+Proof.
+  intros I R H. unfold wstep in H. rewrite R in H. pose proof (inv_cnt w I) as CN.
+  assert (OKB : okb (cstmts cur) = true) by (pose proof (inv_ok w I) as F; rewrite R in F; inversion F; assumption).
+  pose proof (scan_ok (cstmts cur) 0 (List.length (cstmts cur)) eq_refl) as SC.
+  destruct (scan (cstmts cur) 0 (List.length (cstmts cur))) as [i er]. inversion SC as [pre c e E F ER Q1|F Q1|pre s rest' E F NS Q1]; subst.
+  - cbn [Nat.add] in H. inversion H; subst. split; [constructor|intros _; exact Logic.I].
+  - cbn [Nat.add] in H. rewrite Nat.eqb_refl in H. inversion H; subst. split; [constructor|tauto].
+  - cbn [Nat.add] in H.
+    assert (NE : Nat.eqb (List.length pre) (List.length (cstmts cur)) = false) by (apply Nat.eqb_neq; rewrite E, app_length; cbn; lia).
+    rewrite NE in H. rewrite E in H at 1. rewrite nth_error_app_here in H.
+    assert (FN : firstn (List.length pre) (cstmts cur) = pre) by (rewrite E; apply firstn_app_here). rewrite FN in H.
+    rewrite E in OKB. apply okb_app in OKB. destruct OKB as [_ OKB]. apply okb_cons in OKB. destruct OKB as (W1 & W2 & _).
+    assert (FROM : forall nw br ret, Forall noswitch (fin_of cur pre ret br :: nw) ->
+                   Forall nonempty_switch nw /\ (nonempty_switch cur -> nonempty_switch (fin_of cur pre ret br))).
+    { intros nw br ret FN'. inversion FN' as [|? ? N1 N2]; subst. split; [eapply Forall_impl; [|exact N2]; apply noswitch_nonempty|].
+      intros _. apply noswitch_nonempty. exact N1. }
+    destruct s as [c|nm g tk|conds els|tag c body|tag body c|tag|tag|tag op ol cases]; try discriminate NS.
+    + destruct conds as [|[e b] more]; [apply ifok1_if in W2; congruence|].
+      destruct (create_if ((e, b) :: more) els cur (List.length pre) (counter w)) as [[[news0 br] ret] c0] eqn:CR0. inversion H; subst.
+      destruct (create_if_shape _ _ _ _ _ _ _ _ _ _ _ _ E CR0 CN) as (_ & _ & NSW). exact (FROM _ _ _ NSW).
+    + destruct (create_while c body cur (List.length pre) (counter w)) as [[[news0 br] ret] c0] eqn:CR0. inversion H; subst.
+      destruct (create_while_shape _ _ _ _ _ _ _ _ _ _ _ E CR0 CN) as (_ & _ & NSW). exact (FROM _ _ _ NSW).
+    + destruct (create_dowhile body c cur (List.length pre) (counter w)) as [[[news0 br] ret] c0] eqn:CR0. inversion H; subst.
+      destruct (create_dowhile_shape _ _ _ _ _ _ _ _ _ _ _ E CR0 CN) as (_ & _ & NSW). exact (FROM _ _ _ NSW).
+    + destruct (tm_get (brk w) tag) as [d|] eqn:TB; [|discriminate].
+      destruct (split_for_branch cur (List.length pre) (counter w)) as [[post ret] c0] eqn:ES. inversion H; subst.
+      destruct (sfb_shape _ _ _ _ _ _ _ _ E ES) as (_ & PP & _). split; [apply plain_nonempty; exact PP|intros _; exact Logic.I].
+    + destruct (tm_get (org w) tag) as [d|] eqn:TB; [|discriminate].
+      destruct (split_for_branch cur (List.length pre) (counter w)) as [[post ret] c0] eqn:ES. inversion H; subst.
+      destruct (sfb_shape _ _ _ _ _ _ _ _ E ES) as (_ & PP & _). split; [apply plain_nonempty; exact PP|intros _; exact Logic.I].
+    + destruct (create_switch op ol cases cur (List.length pre) (counter w)) as [[[news0 br] ret] c0] eqn:CR0. inversion H; subst.
+      destruct (create_switch_shape _ _ _ _ _ _ _ _ _ _ _ _ E CR0 CN) as (_ & _ & post & sid & swc & bodies & -> & PP & PBD & _ & _ & -> & _ & _ & _ & _ & _ & TNE).
+      split; [|intros _; exact Logic.I]. apply Forall_app. split; [apply plain_nonempty; exact PP|].
+      constructor; [apply TNE; eapply ifok1_switch; exact W2|apply plain_nonempty; exact PBD].
+Qed.
+
+Definition NInv (w : wst) : Prop := Forall nonempty_switch (remaining w ++ finals w).
+Lemma wstep_ninv w cur rest fin news c' nt :
+  Inv w -> NInv w -> remaining w = cur :: rest -> wstep w = SNext fin news c' nt -> NInv (wnext w fin news c' nt).
+Proof.
+  intros I N R H. destruct (wstep_inv _ _ _ _ _ _ _ I R H) as (_ & SF & _ & _).
+  destruct (wstep_nonempty _ _ _ _ _ _ _ I R H) as [NN NF].
+  unfold NInv in *. rewrite SF. unfold wnext. cbn [remaining]. rewrite R in *. cbn [tl]. cbn [app] in N. inversion N as [|? ? NC NR]; subst.
+  apply Forall_app in NR. destruct NR as [N1 N2]. apply Forall_app. split; [apply Forall_app; split; assumption|]. constructor; [apply NF; exact NC|exact N2].
+Qed.
+Theorem work_ninv : forall f w w', Inv w -> NInv w -> work f w = Ok w' -> NInv w'.
+Proof.
+  induction f as [|f IH]; intros w w' I NI H; [discriminate|]. rewrite work_S in H.
+  destruct (wstep w) as [|fin news c' nt| |] eqn:WS; try discriminate.
+  - inversion H; subst. exact NI.
+  - destruct (remaining w) as [|cur rest] eqn:R; [unfold wstep in WS; rewrite R in WS; discriminate|].
+    destruct (wstep_inv _ _ _ _ _ _ _ I R WS) as (I1 & _).
+    eapply IH; [exact I1| |exact H]. eapply wstep_ninv; eassumption.
 Qed.
 
 Definition TInv (w : wst) : Prop :=
@@ -653,7 +776,8 @@ Theorem final_graph_shape body w :
   (* every other target is -1 or such a chunk *)
   (forall c, In c G -> forall d, In d (targets c) -> d = (-1)%Z \/ ((0 < d)%Z /\ In d (ids G))) /\
   (* the chunk after a switch chunk with a case table is its first body chunk; nothing falls through to it *)
-  (forall S, In S G -> is_table S -> (0 < cid S)%Z /\ In (cid S + 1)%Z (ids G) /\ forall c, In c G -> tail_of c <> (cid S + 1)%Z).
+  (forall S, In S G -> is_table S -> (0 < cid S)%Z /\ In (cid S + 1)%Z (ids G) /\ forall c, In c G -> tail_of c <> (cid S + 1)%Z) /\
+  Forall nonempty_switch G.
 Proof.
   intros H [OK ND]. unfold emit_graph in H.
   set (w0 := {| remaining := [mk 0 (-1) body None]; finals := []; counter := 0; brk := []; org := [] |}) in H.
@@ -672,13 +796,14 @@ Proof.
   assert (P0 : PInv w0).
   { unfold PInv. cbn. split; [|split; intros tg x Hx; discriminate]. apply refs_cons; [|apply refs_nil]. cbn. intros x [<-|[]]. left. reflexivity. }
   assert (T0 : TInv w0). { unfold TInv. cbn. intros S [<-|[]] []. }
+  assert (NI0 : NInv w0). { unfold NInv. cbn. repeat constructor. }
   destruct (work_establishes_obligations _ _ _ I0 H) as (I' & RE & _).
   pose proof (work_refs _ _ _ I0 R0 H) as (RR & _). pose proof (work_dinv _ _ _ I0 D0 H) as (DD1 & DD2).
-  pose proof (work_pinv _ _ _ I0 P0 H) as (PP & _). pose proof (work_tinv _ _ _ I0 R0 T0 H) as TT.
-  unfold TInv in TT. rewrite RE in *. cbn [app] in *.
+  pose proof (work_pinv _ _ _ I0 P0 H) as (PP & _). pose proof (work_tinv _ _ _ I0 R0 T0 H) as TT. pose proof (work_ninv _ _ _ I0 NI0 H) as NN.
+  unfold TInv in TT. unfold NInv in NN. rewrite RE in *. cbn [app] in *.
   pose proof (inv_nodup w I') as N. rewrite RE in N. cbn [app] in N.
   pose proof (inv_range w I') as RG. rewrite RE in RG. cbn [app] in RG.
-  cbv zeta. split; [|split; [|split; [|split]]].
+  cbv zeta. split; [|split; [|split; [|split; [|split]]]].
   - split; [exact N|]. eapply Forall_impl; [|exact RG]. cbn. intros c Hc. lia.
   - intros E. rewrite E in DD1. cbn in DD1. pose proof (inv_cnt w I'). lia.
   - intros c Hc d Hd. split; [exact (DD2 c Hc d Hd)|].
@@ -690,5 +815,6 @@ Proof.
     destruct (PP c Hc d Hd) as [->|P]; [|exact P]. exfalso. unfold ids in Q. apply in_map_iff in Q. destruct Q as (x & E & Hx).
     rewrite Forall_forall in RG. specialize (RG x Hx). cbn in RG. lia.
   - intros S HS TS. destruct (TT S HS TS) as (Z0 & A & B & _). split; [exact Z0|split; assumption].
+  - exact NN.
 Qed.
 Print Assumptions final_graph_shape.
